@@ -86,6 +86,11 @@ for _k in (1, -1):
 reg("tt:saint_venant_kirchhoff_orthotropic", "tensortrax",
     st.fixed_dictionaries({"mu": lst(3, 0.3, 2), "lmbda": st.lists(fl(0.1, 1.5), min_size=6, max_size=6), "rseed": st.integers(0, 10**6)}),
     energy=True, fun="saint_venant_kirchhoff_orthotropic", iso=False, lam=(0.85, 1.3))
+# orthotropic law with another Seth-Hill exponent (spectral branch) and an explicit third axis
+for _k in (0, 1):
+    reg(f"tt:saint_venant_kirchhoff_orthotropic(k={_k},r3)", "tensortrax",
+        st.fixed_dictionaries({"mu": lst(3, 0.3, 2), "lmbda": st.lists(fl(0.1, 1.5), min_size=6, max_size=6), "rseed": st.integers(0, 10**6), "k": st.just(_k)}),
+        energy=True, fun="saint_venant_kirchhoff_orthotropic", iso=False, spectral=True, lam=(0.85, 1.3))
 reg("tt:ogden_roxburgh(neo_hooke)", "tensortrax", st.fixed_dictionaries({"mu": fl(0.5, 3), "r": fl(1.5, 5), "m": fl(0.3, 2), "beta": fl(0.0, 0.5)}),
     fun="ogden_roxburgh", nstate=1)
 reg("tt:finite_strain_viscoelastic", "tensortrax", st.fixed_dictionaries({"mu": fl(0.3, 3), "eta": fl(0.2, 5), "dtime": fl(0.1, 2)}),
@@ -101,6 +106,11 @@ for _fw in ("affine_stretch", "affine_tube", "nonaffine_stretch", "nonaffine_tub
 reg("tt:morph(p6=0)", "tensortrax", st.fixed_dictionaries({"scale": fl(0.8, 1.2)}), fun="morph_p6", nstate=13, hyper=False, tol_fd=2e-5)
 reg("tt:morph_representative_directions", "tensortrax", st.fixed_dictionaries({"scale": fl(0.8, 1.2)}), fun="morph_representative_directions",
     nstate=84, hyper=False, iso=False, micro=True, tol_fd=2e-5)
+# the strain-energy variant of the representative-directions MORPH model (hyperelastic namespace, handed to Hyperelastic)
+reg("tt:hyperelastic.morph_representative_directions", "tensortrax", st.fixed_dictionaries({"scale": fl(0.8, 1.2)}), fun="morph_rd_energy",
+    nstate=84, hyper=False, iso=False, micro=True, tol_fd=2e-5)
+# a user-defined Cauchy-stress law WITH a state variable behind the updated-Lagrange decorator (the old state scales the modulus)
+reg("tt:updated_lagrange(neo_hooke with state)", "tensortrax", st.fixed_dictionaries({"mu": fl(0.2, 5)}), fun="updated_lagrange_state", nstate=1, hyper=False)
 reg("tt:total_lagrange(neo_hooke)", "tensortrax", st.fixed_dictionaries({"mu": fl(0.2, 5)}), fun="total_lagrange")
 reg("tt:updated_lagrange(neo_hooke)", "tensortrax", st.fixed_dictionaries({"mu": fl(0.2, 5)}), fun="updated_lagrange")
 # ---- jax ----------------------------------------------------------------------------------------------------------
@@ -212,10 +222,25 @@ def _build(name, params):
                 return mu * tm.special.dev(J ** (-2 / 3) * b) / J
 
             return tt.Material(nh_ul, **p)
+        if f == "morph_rd_energy":
+            # same stabilisation parameter as the default of the stress form (the two forms document different defaults)
+            return tt.Hyperelastic(M.morph_representative_directions, p=[v * p["scale"] if i in (0, 1, 2) else v for i, v in enumerate(MORPH_P)], nstatevars=84,
+                                   **{"\u03b5": 1e-6})
+        if f == "updated_lagrange_state":
+            @tt.updated_lagrange
+            def nh_ul_state(F, statevars, mu=1):
+                J = tm.linalg.det(F)
+                b = F @ F.T
+                g = 1.0 + 0.3 * np.tanh(statevars[0])
+                return mu * g * tm.special.dev(J ** (-2 / 3) * b) / J, tm.special.try_stack([[tm.trace(b) - 3]], fallback=statevars)
+
+            return tt.Material(nh_ul_state, nstatevars=1, **p)
         if f == "saint_venant_kirchhoff_orthotropic":
             from scipy.spatial.transform import Rotation
 
             R = Rotation.random(random_state=p.pop("rseed")).as_matrix()
+            if "k" in p:
+                return tt.Hyperelastic(M.saint_venant_kirchhoff_orthotropic, mu=p["mu"], lmbda=p["lmbda"], r1=R[:, 0], r2=R[:, 1], r3=R[:, 2], k=p["k"])
             return tt.Hyperelastic(M.saint_venant_kirchhoff_orthotropic, mu=p["mu"], lmbda=p["lmbda"], r1=R[:, 0], r2=R[:, 1])
         return tt.Hyperelastic(getattr(M, f), **p)
     if e["backend"] == "jax":
